@@ -66,6 +66,8 @@ PROPS = {
     "C13": {
         "race": True,
         "autoyield": True,
+        # the run is not a verdict unless these mechanisms were demonstrably active
+        "require_counters": ["auto_yield_decisions", "atomic_site_decisions"],
         "replay_isolated": True,
         "hang_is_trouble": True,
         "level": "exploration",
